@@ -42,6 +42,7 @@ def run_case(rs, ctx):
         n_jobs, backend = 1, None
     nf = int(gen.pick(rs, [1, 2, 3]))
     sh = gen.Shadow(cfg, nf)
+    sh.vary_nf = True
     hist = gen.gen_ops(rs, cfg, sh, 1, ["fit"], train_rows=(5, 20)) + \
         gen.gen_ops(rs, cfg, sh, int(rs.integers(0, 4)), ["partial_fit", "add_arm", "remove_arm", "warm_start"])
     queries = gen.gen_ops(rs, cfg, sh, int(rs.integers(1, 7)), ["predict", "predict_expectations"],
